@@ -58,10 +58,11 @@ Example md_ok_example :
   md_ok (mkMD [([2560%N], [20007%N], 2004%N, 0%N); ([2560%N; 6275%N], [19976%N; 20007%N], 5%N, 0%N)] [] []).
 Proof. split; repeat constructor; discriminate. Qed.
 
-(* ---- the stronger well-formedness the totality theorem (C01) needs: no empty phrase, and
-   frequencies that fit the engine's 32-bit arithmetic with room to spare ---- *)
+(* ---- the stronger well-formedness the totality theorem (C01) needs: no empty phrase.  The frequencies are
+   ANY numbers (every u32 is a legal frequency in a dictionary file): the engine's sum and the estimate's
+   addition saturate (fixes 2d722b2 and the one of estimate.rs) ---- *)
 Definition entry_fine (e : dentry) : Prop :=
-  let '(k, t, f, _) := e in k <> [] /\ t <> [] /\ (f < 4000000000)%N.
+  let '(k, t, f, _) := e in k <> [] /\ t <> [].
 Definition md_fine (d : memdict) : Prop := Forall entry_fine (md_sys d) /\ Forall entry_fine (md_user d).
 
 Lemma md_fine_ok d : md_fine d -> md_ok d.
@@ -74,7 +75,7 @@ Proof.
   intros [Hs Hu] Hlen Hf. cbn [do_add md_ops]. unfold md_add. destruct t as [|c t]; [split; assumption|].
   destruct (existsb _ _); cbn [fst]; [split; assumption|].
   split; cbn [md_sys md_user]; [assumption|]. apply bt_insert_forall; [|assumption].
-  cbn [entry_fine]. repeat split; [destruct k; cbn [length] in Hlen; [lia | discriminate] | discriminate | lia].
+  cbn [entry_fine]. split; [destruct k; cbn [length] in Hlen; [lia | discriminate] | discriminate].
 Qed.
 
 Lemma md_fine_update d k t f u tm : md_fine d -> length t = length k -> k <> [] -> (u <= MAX_USER_FREQ)%N ->
@@ -82,7 +83,7 @@ Lemma md_fine_update d k t f u tm : md_fine d -> length t = length k -> k <> [] 
 Proof.
   intros [Hs Hu] Hlen Hk Hb. cbn [do_update md_ops]. unfold md_update. destruct t; [split; assumption|].
   split; cbn [md_sys md_user]; [assumption|]. apply bt_insert_forall; [|assumption].
-  cbn [entry_fine]. repeat split; [assumption | discriminate | unfold MAX_USER_FREQ in Hb; lia].
+  cbn [entry_fine]. split; [assumption | discriminate].
 Qed.
 
 Lemma md_fine_remove d k t : md_fine d -> md_fine (do_remove md_ops d k t).
@@ -91,13 +92,13 @@ Proof.
   unfold bt_remove. rewrite Forall_forall in *. intros x Hx. apply filter_In in Hx as [Hx _]. now apply Hu.
 Qed.
 
-Definition phrase_fine (p : phrase) : Prop := fst p <> [] /\ (snd p < 4000000000)%N.
+Definition phrase_fine (p : phrase) : Prop := fst p <> [].
 
 Lemma tb_lookup_fine entries g k : Forall entry_fine entries -> Forall phrase_fine (tb_lookup entries g k).
 Proof.
   intros H. unfold tb_lookup. apply Forall_forall. intros p Hp. apply in_flat_map in Hp as ([[[k' t] f] tm] & Hin & Hp).
-  rewrite Forall_forall in H. specialize (H _ Hin). cbn [entry_fine] in H. destruct H as (_ & Ht & Hf).
-  destruct (text_eqb k k' && negb (in_grave g k t)); [|contradiction]. destruct Hp as [<-|[]]. split; assumption.
+  rewrite Forall_forall in H. specialize (H _ Hin). cbn [entry_fine] in H. destruct H as (_ & Ht).
+  destruct (text_eqb k k' && negb (in_grave g k t)); [|contradiction]. destruct Hp as [<-|[]]. exact Ht.
 Qed.
 
 Lemma merge_phrase_fine p : phrase_fine p -> forall acc, Forall phrase_fine acc -> Forall phrase_fine (merge_phrase acc p).
@@ -117,9 +118,7 @@ Proof.
 Qed.
 
 Lemma md_fine_text d f k p : md_fine d -> In p (do_lookup md_ops d f k) -> fst p <> [].
-Proof. intros H Hin. pose proof (md_lookup_fine d f k H) as F. rewrite Forall_forall in F. now destruct (F _ Hin). Qed.
-Lemma md_fine_freq d f k p : md_fine d -> In p (do_lookup md_ops d f k) -> (snd p < 4000000000)%N.
-Proof. intros H Hin. pose proof (md_lookup_fine d f k H) as F. rewrite Forall_forall in F. now destruct (F _ Hin). Qed.
+Proof. intros H Hin. pose proof (md_lookup_fine d f k H) as F. rewrite Forall_forall in F. exact (F _ Hin). Qed.
 
 Example md_fine_example :
   md_fine (mkMD [([2560%N], [20007%N], 2004%N, 0%N); ([2560%N; 6275%N], [19976%N; 20007%N], 5%N, 0%N)] [([2560%N], [20013%N], 7%N, 3%N)] []).
@@ -170,7 +169,7 @@ Qed.
 Lemma tbf_lookup_fine entries k : Forall entry_fine entries -> Forall phrase_fine (tbf_lookup entries k).
 Proof.
   intros H. apply Forall_forall. intros p Hp. apply tbf_lookup_in in Hp as (k' & tm & Hin & _).
-  rewrite Forall_forall in H. specialize (H _ Hin). cbn [entry_fine] in H. destruct H as (_ & Ht & Hf). split; assumption.
+  rewrite Forall_forall in H. specialize (H _ Hin). cbn [entry_fine] in H. destruct H as (_ & Ht). exact Ht.
 Qed.
 
 Lemma mdf_lookup_fine d f k : md_fine d -> Forall phrase_fine (do_lookup mdf_ops d f k).
@@ -185,9 +184,7 @@ Proof.
 Qed.
 
 Lemma mdf_fine_text d f k p : md_fine d -> In p (do_lookup mdf_ops d f k) -> fst p <> [].
-Proof. intros H Hin. pose proof (mdf_lookup_fine d f k H) as F. rewrite Forall_forall in F. now destruct (F _ Hin). Qed.
-Lemma mdf_fine_freq d f k p : md_fine d -> In p (do_lookup mdf_ops d f k) -> (snd p < 4000000000)%N.
-Proof. intros H Hin. pose proof (mdf_lookup_fine d f k H) as F. rewrite Forall_forall in F. now destruct (F _ Hin). Qed.
+Proof. intros H Hin. pose proof (mdf_lookup_fine d f k H) as F. rewrite Forall_forall in F. exact (F _ Hin). Qed.
 
 (* add / update / remove are the same functions for both instances *)
 Lemma mdf_fine_add d k t f : md_fine d -> length t <= length k -> (f <= 100)%N -> md_fine (fst (do_add mdf_ops d k t f)).
